@@ -82,10 +82,49 @@ func runC07(c *Ctx, idx int, o *Obs) {
 	useCLI := idx%8 == 5
 	R := gen.Tree(r, opts)
 	start := R.Newick()
+	// tree objects with a past: one case in three works on an object that was re-rooted at another inner node
+	// (unrooted trees: same splits, the parent is no longer every node's first neighbour) or resolved (new nodes
+	// whose parent was attached last) before it is collapsed; the text of that object is the case's start tree
+	start0 := start
+	prep := "none"
+	prepK, prepSeed := r.Intn(1<<20), r.Int63()
+	if idx%3 == 1 {
+		prep = gen.Pick(r, "reroot", "resolve")
+		if prep == "reroot" && len(R.Root.Children) < 3 {
+			prep = "resolve"
+		}
+	}
+	mk := func() *tree.Tree {
+		t := mustParse(start0)
+		switch prep {
+		case "reroot":
+			var cand []*tree.Node
+			for _, x := range innerNodes(t) {
+				if x.Nneigh() >= 3 {
+					cand = append(cand, x)
+				}
+			}
+			if len(cand) > 0 {
+				t.Reroot(cand[prepK%len(cand)])
+			}
+		case "resolve":
+			rand.Seed(prepSeed)
+			t.Resolve()
+		}
+		return t
+	}
+	origin := ""
+	if prep != "none" {
+		start = mk().Newick()
+		useCLI = false // the commands read texts; they are exercised by the other cases
+		origin = fmt.Sprintf(" [the object was read from %s and prepared by %s (k=%d, seed=%d)]", Trunc(start0, 3000), prep, prepK, prepSeed)
+		o.Ev("object_prepared_by:"+prep, 1)
+	}
 	o.Sample = Trunc(start, 300)
 	o.SetFP(start)
 	o.Class = fmt.Sprintf("%s/root%d/len-%s-%s", opts.Shape, len(R.Root.Children), opts.Lens, opts.LenCls)
-	bm := modelOf(mustParse(start))
+	// the model is read off the object itself: the text of a re-rooted tree can hide a support behind a node name
+	bm := modelOf(mk())
 	before := reduce(bm, true)
 	tx := before.tx
 	rooted := len(bm.Root.Children) == 2
@@ -114,7 +153,7 @@ func runC07(c *Ctx, idx int, o *Obs) {
 
 	// judge compares the tree after a collapse with the expectation.
 	judge := func(what string, am *ref.Tree, pred func(nd *ref.Node, light int) (hit bool, decidable bool), removeRoot bool) {
-		inp := start + " ; " + what + " => " + Trunc(am.Newick(), 1500)
+		inp := start + origin + " ; " + what + " => " + Trunc(am.Newick(), 1500)
 		after := reduce(am, true)
 		if !o.Check(sameStrings(before.tx.Names, after.tx.Names), "collapse_tips", what+": tip set changed", inp) {
 			return
@@ -178,7 +217,7 @@ func runC07(c *Ctx, idx int, o *Obs) {
 	// ---- by length -----------------------------------------------------------------------
 	for _, l := range thresholds(lens) {
 		removeRoot := r.Intn(4) == 0
-		t := mustParse(start)
+		t := mk()
 		t.CollapseShortBranches(l, removeRoot, false)
 		o.Ev("CollapseShortBranches", 1)
 		what := fmt.Sprintf("CollapseShortBranches(%v,root=%v)", l, removeRoot)
@@ -194,7 +233,7 @@ func runC07(c *Ctx, idx int, o *Obs) {
 	// ---- by support ----------------------------------------------------------------------
 	for _, s := range thresholds(sups) {
 		removeRoot := r.Intn(4) == 0
-		t := mustParse(start)
+		t := mk()
 		t.CollapseLowSupport(s, removeRoot)
 		o.Ev("CollapseLowSupport", 1)
 		what := fmt.Sprintf("CollapseLowSupport(%v,root=%v)", s, removeRoot)
@@ -214,7 +253,7 @@ func runC07(c *Ctx, idx int, o *Obs) {
 			a, b = 2, 2
 		}
 		removeRoot := r.Intn(4) == 0
-		t := mustParse(start)
+		t := mk()
 		if err := t.ReinitIndexes(); err != nil {
 			o.Inconclusive = "ReinitIndexes: " + err.Error()
 			return
@@ -287,7 +326,7 @@ func runC07(c *Ctx, idx int, o *Obs) {
 	}
 	for k := 0; k < 4; k++ {
 		seed := r.Int63()
-		t := mustParse(start)
+		t := mk()
 		prior := ""
 		switch k {
 		case 1: // the tree object has been used before: indexes, depths and cached subtree sizes are there
